@@ -9,13 +9,13 @@ double lim_j() { return 32; }
 double lim_h() { return 48; }
 
 // ------------------------------------------------------------------ evaluation-point alphabets
-// levels: 0 triples (quick), 1 triples (thorough), 2 pairs (quick), 3 pairs (thorough) and single arguments (quick),
-// 4 single arguments (thorough). Every space is the full product of its per-argument alphabets.
+// levels of the per-argument alphabets: quick uses 1 (three arguments), 2 (two), 4 (one); thorough uses 2, 3, 4 and the
+// union over the whole menu of generic directions. Every space is the full product of its per-argument alphabets.
 int tier_level(int arity)
 {
-  if (arity >= 3) return mc::thorough() ? 1 : 0;
+  if (arity >= 3) return mc::thorough() ? 2 : 1;
   if (arity == 2) return mc::thorough() ? 3 : 2;
-  return mc::thorough() ? 4 : 3;
+  return 4;
 }
 /// vector coordinates: zero or of magnitude 0.1 .. 10 (statement)
 std::vector<std::array<double, 3>> vec_patterns(int level)
@@ -25,14 +25,14 @@ std::vector<std::array<double, 3>> vec_patterns(int level)
     p.push_back({10, 10, -10});
     p.push_back({-0.1, 0.1, 0.1});
   }
-  if (level >= 2) p.push_back({1, 0, 0});
-  if (level >= 3) {
+  if (level >= 2) {
+    p.push_back({1, 0, 0});
     p.push_back({0, 0, -3});
     p.push_back({5, -0.2, 0.4});
     p.push_back({-2.5, 10, 0.1});
     p.push_back({0.1, 0, 10});
   }
-  if (level >= 4) {
+  if (level >= 3) {
     p.push_back({-10, 0, 0});
     p.push_back({0.25, 0.5, -0.125});
     p.push_back({3, -3, 3});
@@ -44,8 +44,8 @@ std::vector<double> scalar_alphabet(int level)
 {
   std::vector<double> out = {0., -0.7, 10.};
   if (level >= 1) out.push_back(0.1);
-  if (level >= 2) out.push_back(3.);
-  if (level >= 3) {
+  if (level >= 2) {
+    out.push_back(3.);
     out.push_back(-10.);
     out.push_back(1.);
     out.push_back(-0.25);
@@ -78,12 +78,18 @@ AlphaOpts group_opts(int level)
   } else if (level == 3) {
     o.thetas = {0, 1e-9, 9.9e-5, 1.0001e-4, 1e-2, 0.3, 1, 2, 3};
     o.dirs   = {{0, 0, 1}, dirs_menu()[size_t(2 * s)]};
+    if (mc::thorough())
+      for (int q = 1; q < 4; ++q) o.dirs.push_back(dirs_menu()[size_t((2 * s + 2 * q) % 8)]);
     o.tmags  = {0, 0.3, 3};
     o.ntdir  = 3;
     o.level  = 0;  // Bundle parts: AlphaOpts::part
   } else {
     o.thetas = {0, 1e-300, 1e-9, 1e-6, 9.9e-5, std::nextafter(1e-4, 0.), 1e-4, 1.0001e-4, 1e-3, 1e-2, 0.1, 0.3, 1, 2, 3};
     o.dirs   = {{1, 0, 0}, {0, 0, -1}, dirs_menu()[size_t(2 * s)], dirs_menu()[size_t(2 * s + 1)]};
+    if (mc::thorough()) {
+      o.dirs = {{1, 0, 0}, {0, 0, -1}};
+      for (auto & d : dirs_menu()) o.dirs.push_back(d);
+    }
     o.tmags  = {0, 0.1, 1, 3};
     o.ntdir  = 4;
     o.level  = 0;
